@@ -174,6 +174,7 @@ def correspondence(chk, quick, ncase, accept_pinned_two=False, odd=False):
     Every scalar parameter is handed to the library as Python float / numpy.float64 / numpy.float32 / 0-d array / int (Scalars), the
     field as complex128 / real / complex64 / Fortran-ordered / strided views (present_field); the model is given the binary64 values."""
     from aotools import opticalpropagation as op
+    op = common.Guarded(op, chk)
     nprng = numpy.random.default_rng(chk.rng.getrandbits(32))
     sizes = [2, 4, 6, 8, 10, 12] if quick else [2, 4, 6, 8, 10, 12, 14, 16]
     if odd:
@@ -289,6 +290,7 @@ TINY_Z = [5e-9, -5e-9, 1e-10, -3e-12]
 
 def oracle(chk, quick):
     from aotools import opticalpropagation as op
+    op = common.Guarded(op, chk)
     nprng = numpy.random.default_rng(chk.rng.getrandbits(32))
     sizes = [2, 4, 6, 8, 10, 16, 32, 64] + ([] if quick else [12, 24, 48, 96, 128])
     reps = 3 if quick else 12
@@ -387,6 +389,14 @@ def oracle(chk, quick):
         if kinds[0] == "int":
             wvl, d1, z = 1.0, 2.0, float(chk.rng.choice([-1, 1]) * chk.rng.randint(2, 40))
         one_geometry(chk.rng.choice([4, 6, 8]), wvl, d1, 1.0, z, chk.rng.choice(["gauss", "blob"]), "c128", kinds=kinds, tag="unit-mag")
+    # the SAME sampling (N, wavelength, both spacings) at several distances, one call after the other in this process — a simulation
+    # propagates to several layers on one grid; anything remembered per sampling (plane grids, transfer functions) shows up here
+    for n in ([8, 16] if quick else [4, 8, 16, 32]):
+        for m in (1.0, 2.0, 0.75):
+            wvl, d1, z0 = geometry(chk.rng, n)
+            for fz in (1.0, 2.5, -0.4, 1.0):
+                it += 1
+                one_geometry(n, wvl, d1, m, z0 * fz, chk.rng.choice(["gauss", "blob"]), "c128", kinds=["float"] * 4, tag="same-sampling")
     # tiny non-zero distances of either sign, with magnification: z != 0 is in the domain however small (a zero-distance shortcut that
     # also fires for |z| <= 1e-8 returns the input on the input grid: power off by m²)
     for z in TINY_Z if quick else TINY_Z + [1e-8, -1e-8, 9.9e-9, 2 ** -40, -2 ** -60]:
